@@ -301,8 +301,8 @@ func (b *c14Broker) Unsub(c string, fs []string) error {
 	if err != nil {
 		return err
 	}
-	if !cl.Unsubscribe(fs, c14Wait) {
-		return fmt.Errorf("no UNSUBACK (client %s, eof=%v, registered=%v)", c, cl.EOF(), b.x.Registered(c) != nil)
+	if _, decided := cl.UnsubscribeTry(fs, c14Wait); !decided {
+		return fmt.Errorf("no answer to UNSUBSCRIBE+PINGREQ from the broker (client %s, eof=%v, registered=%v)", c, cl.EOF(), b.x.Registered(c) != nil)
 	}
 	return b.settle()
 }
@@ -394,8 +394,28 @@ func TestVerifC14Replay(t *testing.T) {
 	w := vx.NewWriter(t, "VERIF_OUT")
 	defer w.Close()
 	mode := c14Getenv("VERIF_MODE", "direct")
-	steps, probes, mism, hfail := 0, 0, 0, 0
+	steps, probes, mism, hfail, replayed := 0, 0, 0, 0, 0
+	// wall-clock budget: on a busy machine the broker binding (a round trip and a goroutine barrier per step) can be many
+	// times slower than usual; the behaviours not reached within the budget are left out and counted
+	budget := time.Duration(vx.EnvInt("VERIF_BUDGET_S", 100000)) * time.Second
+	t0 := time.Now()
+	shard, of, mine := 0, 1, 0
+	if sh := os.Getenv("VERIF_SHARD"); sh != "" {
+		fmt.Sscanf(sh, "%d/%d", &shard, &of)
+	}
+	for bi := range behs {
+		if bi%of == shard {
+			mine++
+		}
+	}
 	for bi, beh := range behs {
+		if bi%of != shard {
+			continue
+		}
+		if time.Since(t0) > budget {
+			break
+		}
+		replayed++
 		cache := 100000
 		if bi%2 == 1 {
 			cache = 3 // tiny level-split cache: evictions on the path
@@ -408,7 +428,9 @@ func TestVerifC14Replay(t *testing.T) {
 		}
 		sys, err := c14NewSys(mode, cache, pers)
 		if err != nil {
-			t.Fatalf("cannot build system: %v", err)
+			hfail++
+			w.Raw(vx.M{"k": "mismatch", "mode": mode, "behaviour": bi, "step": 0, "what": "harness: cannot build system: " + err.Error(), "sig": vx.M{"kind": "harness"}})
+			continue
 		}
 		bad := ""
 		var sig vx.M
@@ -497,7 +519,7 @@ func TestVerifC14Replay(t *testing.T) {
 		}
 		sys.Close()
 	}
-	w.Raw(vx.M{"k": "summary", "mode": mode, "behaviours": len(behs), "steps": steps, "probes": probes, "mismatches": mism, "harness_failures": hfail})
+	w.Raw(vx.M{"k": "summary", "mode": mode, "behaviours": mine, "replayed": replayed, "wall_s": int(time.Since(t0).Seconds()), "steps": steps, "probes": probes, "mismatches": mism, "harness_failures": hfail})
 }
 
 func c14Getenv(k, d string) string {
@@ -599,15 +621,35 @@ func c14TopicFor(r c14Rand, live []string) string {
 	return strings.Join(lv, "/")
 }
 
-// TestVerifC14Trace: VERIF_N histories of VERIF_STEPS operations by 4 clients; VERIF_MULTIFAIL=1
-// also sends SUBSCRIBE packets that mix well-formed and malformed filters.
+// c14Matches: does topic name t match the well-formed filter f?  Used by the generator only, to choose probe
+// topics near the filters an operation touched (the verdict on every probe is TLC's).
+func c14Matches(f, t string) bool {
+	fl, tl := strings.Split(f, "/"), strings.Split(t, "/")
+	for i, l := range fl {
+		if l == "#" {
+			return true
+		}
+		if i >= len(tl) || (l != "+" && l != tl[i]) {
+			return false
+		}
+	}
+	return len(fl) == len(tl)
+}
+
+// TestVerifC14Trace: VERIF_N histories of VERIF_STEPS operations by 4 clients.  VERIF_MULTIFAIL selects the
+// family of packets that mix well-formed and malformed filters: 0 none (a malformed filter only ever alone in
+// its packet), 1 SUBSCRIBE packets, 2 UNSUBSCRIBE packets whose last filter is malformed, 3 UNSUBSCRIBE packets
+// with a malformed filter anywhere.
+// After every operation four topics are looked up: one made for a filter the operation touched, one that
+// was looked up before for such a filter (a topic is looked up again and again across operations), one
+// looked up earlier for any filter, and one made for any filter ever subscribed.
 func TestVerifC14Trace(t *testing.T) {
 	w := vx.NewWriter(t, "VERIF_OUT")
 	defer w.Close()
 	mode := c14Getenv("VERIF_MODE", "direct")
 	n, steps := vx.EnvInt("VERIF_N", 10), vx.EnvInt("VERIF_STEPS", 60)
-	multifail := vx.EnvInt("VERIF_MULTIFAIL", 0) == 1
-	rng := vx.Rand(int64(14 + 1000*vx.EnvInt("VERIF_SALT", 0) + 100*len(mode)))
+	family := vx.EnvInt("VERIF_MULTIFAIL", 0)
+	rng := vx.Rand(int64(14 + 1000*vx.EnvInt("VERIF_SALT", 0) + 100*len(mode) + map[string]int{"broker": 7}[mode])) // other histories per binding
 	clients := []string{"c1", "c2", "c3", "c4"}
 	pers := map[string]bool{"c3": true, "c4": true} // = Persistent of the trace configuration
 	for ti := 0; ti < n; ti++ {
@@ -616,18 +658,22 @@ func TestVerifC14Trace(t *testing.T) {
 			cache = 4
 		}
 		sys, err := c14NewSys(mode, cache, pers)
-		if err != nil {
-			t.Fatalf("cannot build system: %v", err)
-		}
 		w.Emit(vx.M{"ev": "reset", "trace": ti, "pers": []string{"c3", "c4"}})
+		if err != nil {
+			w.Emit(vx.M{"ev": "harness-failure", "what": "cannot build system: " + err.Error()})
+			continue
+		}
 		live := map[string]bool{} // filters somebody subscribed at some time (probe material)
 		var liveList []string
+		held := map[string][]string{} // client -> filters it (probably) holds: material for UNSUBSCRIBE packets
+		var probed []string           // topics looked up so far
 		fail := false
 		for s := 0; s < steps && !fail; s++ {
 			c := clients[rng.Intn(len(clients))]
 			x := rng.Float64()
+			var touched []string // well-formed filters the operation is about
 			switch {
-			case x < 0.57: // subscribe
+			case x < 0.52: // subscribe
 				k := 1
 				if rng.Intn(3) == 0 {
 					k = 2 + rng.Intn(2)
@@ -637,13 +683,15 @@ func TestVerifC14Trace(t *testing.T) {
 				hasBad := false
 				for i := 0; i < k; i++ {
 					f := ""
-					if rng.Intn(9) == 0 && (multifail || k == 1) {
+					if rng.Intn(9) == 0 && (family == 1 || k == 1) {
 						f = c14BadFilter(rng)
 						hasBad = true
 					} else if len(liveList) > 0 && rng.Intn(3) == 0 {
 						f = liveList[rng.Intn(len(liveList))] // re-subscription, shared prefixes
+						touched = append(touched, f)
 					} else {
 						f = c14GoodFilter(rng)
+						touched = append(touched, f)
 					}
 					fs = append(fs, f)
 					qs = append(qs, byte(rng.Intn(2)))
@@ -661,18 +709,35 @@ func TestVerifC14Trace(t *testing.T) {
 						live[f] = true
 						liveList = append(liveList, f)
 					}
+					if !hasBad {
+						held[c] = append(held[c], f)
+					}
 				}
 				w.Emit(vx.M{"ev": "sub", "c": c, "fs": lv, "qs": c14Ints(qs), "ok": ok})
-			case x < 0.85: // unsubscribe (known or never-subscribed filters)
-				k := 1 + rng.Intn(2)
+			case x < 0.85: // unsubscribe (filters the client holds, filters of others, never-subscribed filters)
+				k := 1 + rng.Intn(3)
 				var fs []string
-				var lv [][][]string
 				for i := 0; i < k; i++ {
 					f := c14GoodFilter(rng)
-					if len(liveList) > 0 && rng.Intn(4) != 0 {
+					if len(held[c]) > 0 && rng.Intn(2) == 0 {
+						f = held[c][rng.Intn(len(held[c]))]
+					} else if len(liveList) > 0 && rng.Intn(4) != 0 {
 						f = liveList[rng.Intn(len(liveList))]
 					}
 					fs = append(fs, f)
+					touched = append(touched, f)
+				}
+				switch {
+				case family == 2 && rng.Intn(2) == 0:
+					fs = append(fs, c14BadFilter(rng))
+				case family == 3 && rng.Intn(2) == 0:
+					i := rng.Intn(len(fs) + 1)
+					fs = append(fs[:i], append([]string{c14BadFilter(rng)}, fs[i:]...)...)
+				case family == 0 && rng.Intn(12) == 0:
+					fs, touched = []string{c14BadFilter(rng)}, nil
+				}
+				var lv [][][]string
+				for _, f := range fs {
 					lv = append(lv, c14Levels(f))
 				}
 				if err := sys.Unsub(c, fs); err != nil {
@@ -680,15 +745,29 @@ func TestVerifC14Trace(t *testing.T) {
 					fail = true
 					break
 				}
+				var keep []string
+				for _, h := range held[c] {
+					gone := false
+					for _, f := range fs {
+						gone = gone || f == h
+					}
+					if !gone {
+						keep = append(keep, h)
+					}
+				}
+				held[c] = keep
 				w.Emit(vx.M{"ev": "unsub", "c": c, "fs": lv})
 			case x < 0.90:
+				touched = held[c]
 				if err := sys.Disc(c); err != nil {
 					w.Emit(vx.M{"ev": "harness-failure", "what": err.Error()})
 					fail = true
 					break
 				}
+				held[c] = nil
 				w.Emit(vx.M{"ev": "disc", "c": c})
 			case x < 0.96 && pers[c]: // (a client with a clean session: takeover)
+				touched = held[c]
 				if err := sys.Resume(c); err != nil {
 					w.Emit(vx.M{"ev": "harness-failure", "what": err.Error()})
 					fail = true
@@ -696,27 +775,49 @@ func TestVerifC14Trace(t *testing.T) {
 				}
 				w.Emit(vx.M{"ev": "resume", "c": c})
 			default:
+				touched = held[c]
 				if err := sys.Takeover(c); err != nil {
 					w.Emit(vx.M{"ev": "harness-failure", "what": err.Error()})
 					fail = true
 					break
 				}
+				held[c] = nil
 				w.Emit(vx.M{"ev": "takeover", "c": c})
 			}
-			for p := 0; p < 3 && !fail; p++ {
-				topic := c14TopicFor(rng, liveList)
+			if fail {
+				break
+			}
+			var topics []string
+			if len(touched) > 0 {
+				f := touched[rng.Intn(len(touched))]
+				topics = append(topics, c14TopicFor(rng, []string{f})) // made for a filter of the operation
+				var again []string
+				for _, p := range probed {
+					if c14Matches(f, p) {
+						again = append(again, p)
+					}
+				}
+				if len(again) > 0 {
+					topics = append(topics, again[rng.Intn(len(again))]) // looked up before the operation
+				}
+			}
+			if len(probed) > 0 {
+				topics = append(topics, probed[rng.Intn(len(probed))])
+			}
+			topics = append(topics, c14TopicFor(rng, liveList))
+			for _, topic := range topics {
 				got, err := sys.Probe(topic)
 				if err != nil {
 					w.Emit(vx.M{"ev": "probe-error", "t": c14Levels(topic), "what": err.Error()})
 					continue
 				}
-				var r []vx.M
+				probed = append(probed, topic)
 				var ks []string
 				for k := range got {
 					ks = append(ks, k)
 				}
 				sort.Strings(ks)
-				r = []vx.M{}
+				r := []vx.M{}
 				for _, k := range ks {
 					r = append(r, vx.M{"c": k, "q": int(got[k])})
 				}
